@@ -15,7 +15,7 @@ type zzC17Pat struct {
 
 var zzC17Pool = []zzC17Pat{
 	{"/a", false}, {"/u/{id}", false}, {"/u/{nm}", false}, {"/u/{-id}", false}, {"/u/{id}/x", false},
-	{"/p/{y:\\d+}/e", false}, {"/p/{-x:\\d+}/e", false}, {"/p/{x:\\d*}/e", false}, {"/new", false}, {"/u/m", false},
+	{"/p/{y:\\d+}/e", false}, {"/p/{-x:\\d+}/e", false}, {"/p/{x:\\d*}/e", false}, {"/new", false}, {"/u/m", false}, {"/q/a", false},
 	{"/{}", true}, {"/{a}{b}", true}, {"/{a}/{a}", true}, {"/r/{z:[}", true}, {"", true}, {"/{:x}", true},
 }
 
@@ -24,6 +24,7 @@ var zzC17Setups = [][]zzOp{
 	{zzH("/p/{x:\\d+}/e", "GET")},
 	{zzH("/u/{id}", "DELETE")},
 	{zzH("/a", "GET"), zzH("/b", "GET"), zzH("/c", "GET"), zzH("/d", "GET"), zzH("/e", "GET"), zzH("/u/{id}/x", "PUT")},
+	{zzH("/q/au", "GET"), zzH("/q/av", "POST")}, // /q/a exists only as the inner node of the split
 }
 
 // zzSameShape: identical up to parameter names and the '-' flag.
@@ -54,7 +55,7 @@ func zzState(r *Router[*hnd], m *zzModel) string {
 			s += "|" + c.p + "=" + zzJoin(ms)
 		}
 	}
-	for _, x := range []string{"/b", "/c", "/d", "/e"} {
+	for _, x := range []string{"/b", "/c", "/d", "/e", "/q/au", "/q/av"} {
 		if ms, ok := rs[x]; ok {
 			s += "|" + x + "=" + zzJoin(ms)
 		}
@@ -129,7 +130,7 @@ func ZZC17(n int) {
 	}
 
 	path := zzv.Bytes("p", n%100)
-	pm := zzProbeMethods[zzv.Choice("m", 3)]
+	pm := zzProbeMethods[zzv.Choice("m", 4)]
 	zzv.Assume(path != "" && path != "*")
 	before := zzState(r, m)
 	ob, wb := zzServe(r, zzReq(pm, path))
